@@ -156,11 +156,22 @@ func worker(results chan<- result, files <-chan string, wg *sync.WaitGroup) {
 			f, err = simhook.Open(f, err, file)
 		}
 		if err != nil {
+			// The file could not be opened (missing, dangling link, permissions...)
+			// report it rather than carrying on with a nil file
 			res.err = err
+			results <- res
+			continue
 		}
-		info, _ := f.Stat() //nolint: errcheck // The file is already open here so we can ignore the error
+		info, err := f.Stat()
+		if err != nil {
+			f.Close()
+			res.err = err
+			results <- res
+			continue
+		}
 		// Skip directories
 		if info.IsDir() {
+			f.Close()
 			simhook.Yield("hash.worker.recv", "")
 			continue
 		}
